@@ -376,6 +376,23 @@ func (r *Repo) Git(args ...string) ([]byte, error) {
 	return out, nil
 }
 
+// ResolveLong resolves a revision expression that is too long for one command-line argument (128 KiB) by putting
+// it to `git cat-file --batch-check` on stdin (the expression must not contain a line feed).
+func (r *Repo) ResolveLong(expr string) ([]byte, error) {
+	cmd := exec.Command("/usr/bin/git", "cat-file", "--batch-check=%(objectname)")
+	cmd.Dir = r.Dir
+	cmd.Env = GitEnv(filepath.Dir(r.Dir))
+	cmd.Stdin = strings.NewReader(expr + "\n")
+	out, err := cmd.Output()
+	if err != nil {
+		return nil, err
+	}
+	if f := strings.Fields(string(out)); len(f) != 1 || len(f[0]) != 40 {
+		return nil, fmt.Errorf("not resolved")
+	}
+	return out, nil
+}
+
 // VerifyObjects confirms git sees exactly the objects written (soundness
 // guard: a repository git does not read as intended is a generator bug).
 func (r *Repo) VerifyObjects() error {
